@@ -32,6 +32,8 @@ pub struct ExecRec {
     pub finished: bool,
     /// simulated thread that ran the body (0 unless a task-id hook is installed)
     pub task: u64,
+    /// the plan this execution started under (its cache_if verdict travels with it)
+    pub script: Script,
 }
 
 #[derive(Default)]
@@ -109,8 +111,8 @@ fn start_exec(fn_id: u16, repr: &str) -> (u64, Key, Script) {
         };
         w.seq += 1;
         let stamp = w.seq;
-        w.execs.push(ExecRec { stamp, fn_id, k, finished: false, task });
         let s = w.cur.get(&(fn_id, k)).cloned().unwrap_or_default();
+        w.execs.push(ExecRec { stamp, fn_id, k, finished: false, task, script: s });
         (stamp, k, s)
     })
 }
@@ -186,8 +188,9 @@ pub fn cache_if<R: RetVal>(fn_id: u16, key: &String, v: &R) -> bool {
     with(|w| {
         let stamp = v.r_stamp();
         w.cif_seen.push((fn_id, key.clone(), stamp));
-        match key_of_stamp(w, stamp).and_then(|fk| w.cur.get(&fk)) {
-            Some(s) => s.cif_verdict,
+        // the verdict scripted for the execution that produced this value
+        match w.execs.iter().rev().find(|e| e.stamp == stamp) {
+            Some(e) => e.script.cif_verdict,
             None => (stamp + w.salt) % 2 == 0,
         }
     })
